@@ -380,7 +380,8 @@ func parseJournal(path string) (results []Result, open int, hang bool, done bool
 
 func tail(s string, n int) string {
 	if len(s) > n {
-		return "...\n" + s[len(s)-n:]
+		h := n / 3
+		return s[:h] + "\n...[cut]...\n" + s[len(s)-(n-h):]
 	}
 	return s
 }
